@@ -243,7 +243,20 @@ def seed_effect(name, tier, placement):
     return _effect[key]
 
 
+_poisoned = [False]      # a server thread of this worker process is stuck for good (holding a class-level parser lock)
+
+
 def run_hostile(hostile, placement, need_fo=False, probes=True, allowed=(), want_store=False):
+    try:
+        return _run_hostile(hostile, placement, need_fo, probes, allowed, want_store)
+    except sim.SessionHang as exc:
+        _poisoned[0] = True
+        bad = [("hang", "after %d hostile bytes in placement %r a session of the simulator stopped responding: %s"
+                % (len(hostile), placement, exc))]
+        return (bad, None) if want_store else bad
+
+
+def _run_hostile(hostile, placement, need_fo=False, probes=True, allowed=(), want_store=False):
     """Place `hostile` in a session; returns [(kind,msg)].  allowed: stores that are acceptable besides 'unchanged' (the effect
     of the valid frame the hostile input was derived from: a lenient parser may still perform exactly that write)."""
     bad = []
@@ -251,11 +264,11 @@ def run_hostile(hostile, placement, need_fo=False, probes=True, allowed=(), want
     S = sim.Sim(CFG)
     older = None
     if probes:
-        older = sim.Session(S, ("127.0.0.1", 10009))
+        older = sim.Session(S, ("127.0.0.1", 10009), wait_timeout=25)
         S.rnd.script = [0x2000]
         older.feed(W.register(b"ctx-oldr"))
     cap = 40 * (K * (len(hostile) + 400) + _K["base"])
-    ss = sim.Session(S, ADDR, count_steps=True, step_cap=cap, runner=True)
+    ss = sim.Session(S, ADDR, count_steps=True, step_cap=cap, runner=True, wait_timeout=25)
     fed = 0
     conn_id = 0
     pre = []
@@ -318,7 +331,7 @@ def run_hostile(hostile, placement, need_fo=False, probes=True, allowed=(), want
     M = sim.mods()
     if probes:
         want_a, want_b = list(dict(store)["a"]), list(dict(store)["b"])
-        new = sim.Session(S, ("127.0.0.1", 10010))
+        new = sim.Session(S, ("127.0.0.1", 10010), wait_timeout=25)
         rn = new.feed(W.register(b"ctx-new-"))
         for who, sess, first in (("older", older, older.conn.sent[0]), ("new", new, rn[0] if rn else None)):
             try:
@@ -350,6 +363,9 @@ def patch_conn(frame, conn_id):
 
 def shard(acc, item, tier, seed):
     what = item[0]
+    if _poisoned[0]:
+        acc.count("shards_skipped_in_a_worker_with_a_stuck_server_thread")
+        return
     if what == "seed":
         _, name, placement, k, K = item
         data, lengths, fo = seeds(tier)[name]
@@ -369,6 +385,8 @@ def shard(acc, item, tier, seed):
             bad = run_hostile(hostile, placement, need_fo=fo, probes=True, allowed=allowed)
             for kk, m in bad:
                 acc.violation(kk, {"hostile": hostile, "placement": placement, "fo": fo, "label": list(label), "seed": name}, m)
+            if _poisoned[0]:
+                return
         acc.sample({"hostile": data[:20] + b"\xff" + data[21:], "placement": placement, "fo": fo, "seed": name})
     elif what == "short":
         _, first_bytes, second = item
